@@ -17,7 +17,8 @@
   * op sequence `N<k0>,<op>,<op>,...` with op = `T<k>:<a>-<b>:<k'>` (add_transition),
                 `D<k>:<k'>` (set_default_successor), `F<k>` (mark_final),
                 `B` (call build() here and drop the result: build takes &mut self but leaves the
-                builder unchanged, so the model treats `B` as a no-op)
+                builder unchanged, so the model treats `B` as a no-op),
+                `U` (the same for build_unchecked(); its result or panic is dropped)
   * table       `size|alpha|[e00,e01,..];[e10,..];...`  (size(), alphabet_size(), eval(s,c) rows)
   * ctb script  `-` (empty) or `;`-joined `D<i>:<d>` (set_default) / `S<i>:[c>v,c>v,...]`
                 (set_successors)
@@ -48,9 +49,9 @@ def rCS (s : String) : Option CharSet :=
   | [a, b] => do let x ← rNat a; let y ← rNat b; pure ⟨x, y⟩
   | _ => none
 
-/-- `none` inside = the `B` pseudo-op -/
+/-- `none` inside = the `B` / `U` pseudo-ops -/
 def rOp (s : String) : Option (Option BuilderOp) :=
-  if s == "B" then some none
+  if s == "B" || s == "U" then some none
   else
     let body := sDrop s 1
     match s.front, body.splitOn ":" with
